@@ -8,7 +8,7 @@
    [total = satsum caps] is the saturating sum the caller passes. *)
 From Coq Require Import String ZArith List Permutation.
 From Verif Require Import Base.GoInt Strategy.Model Strategy.ProofsBase Strategy.Proofs
-  Strategy.ProofsOk Strategy.ProofsOld Strategy.Glue Strategy.ProofsGlue Strategy.ModelW Strategy.ProofsW Strategy.ProofsW2.
+  Strategy.ProofsOk Strategy.ProofsOld Strategy.Glue Strategy.ProofsGlue Strategy.ModelW Strategy.ProofsW Strategy.ProofsW2 Calcium.DeployPath Calcium.DeployPathProofs.
 Local Open Scope Z_scope.
 
 Theorem C02_complete : forall infos need limit total,
@@ -75,3 +75,28 @@ Theorem C02_complete_int64 : forall s need limit infos total,
      deployW s need limit infos total = Err EInsufficientCapacity).
 Proof. exact C02_complete_W. Qed.
 Print Assumptions C02_complete_int64.
+
+(* ---- along the composed deploy path the total IS the saturating sum: C02 without
+   the hypothesis on [total] (discharged by the cobalt / cpumem models) ---- *)
+Theorem C02_path_total :
+  forall (answers : list Merge.famap) morder,
+  answers <> nil ->
+  (forall a, In a answers -> NoDup (map fst a)) ->
+  (forall a k v, In a answers -> In (k, v) a -> 0 <= Merge.n_cap v <= max_int) ->
+  Permutation (entries_of (fst (Merge.gndc_f answers))) morder ->
+  snd (Merge.gndc_f answers) = satsum (map ce_cap morder).
+Proof. exact path_total. Qed.
+Print Assumptions C02_path_total.
+
+Theorem C02_path_complete :
+  forall sortf base maxshare raw req orders nodes caps morder status need limit s,
+  path_hyps sortf base maxshare raw req orders nodes caps morder status need limit ->
+  s <> Other -> need <= max_int ->
+  (feasible s need limit (glue_infos morder status) = true ->
+     (exists p, deploy_path sortf base maxshare raw orders nodes morder status s need limit = PResult (Ok p)) \/
+     deploy_path sortf base maxshare raw orders nodes morder status s need limit = PResult (AlreadyFilled nil)) /\
+  (feasible s need limit (glue_infos morder status) = false ->
+     deploy_path sortf base maxshare raw orders nodes morder status s need limit = PResult (Err EInsufficientResource) \/
+     deploy_path sortf base maxshare raw orders nodes morder status s need limit = PResult (Err EInsufficientCapacity)).
+Proof. exact deploy_path_C02. Qed.
+Print Assumptions C02_path_complete.
